@@ -156,8 +156,11 @@ package gohbase
 //@   loop 1 invariant groupsOK(rpcByClient, batch, i) && groupsOrdered(rpcByClient)
 //@   loop 1 invariant forall(rc, haskey(rpcByClient, rc) ==> allocated(rpcByClient[rc]))
 
+// a call may travel in a multi iff it implements Batchable and does not opt out (CheckAndPut, SkipBatch())
+//@ pred hrpc.canBatch(c) = typeis(c, "hrpc.Batchable") && !asiface(c, "hrpc.Batchable").SkipBatch()
 //@ func hrpc.CanBatch
 //@   modifies nothing
+//@   ensures[C12] r0 == canBatch(c)
 
 // orig = the batch as passed by the caller; rpcToRes maps every original call to its position
 //@ pred gohbase.sbOrig(orig, rpcToRes, n) = len(orig) == n && forall(j, 0 <= j && j < n, orig[j] != nil && haskey(rpcToRes, orig[j]) && rpcToRes[orig[j]] == j)
@@ -193,8 +196,15 @@ package gohbase
 //@   panics never[C07]
 //@   ensures[C07] len(res) == len(batch)
 //@   ensures[WIP] allOK ==> forall(j, 0 <= j && j < len(res), res[j].Error == nil)
+// the part of it that is proved: a batch is reported all-OK only if its last round collected no call for another attempt
+// (calls collected for retry carry their error in their slot: retriesOK)
+//@   ensures[C07] allOK ==> forall(x, ghostat("retrymark", x) != ghost("round") || ghost("round") == old(ghost("round")))
+//@   loop "for _, cAndR := range cAndRs" invariant[C07] allOK ==> forall(x, ghostat("retrymark", x) != ghost("round"))
 //@   ensures[C07] forall(j, 0 <= j && j < len(res), res[j].Error != nil || recvd(old(batch)[j].ResultChan(), res[j]))
 //@   ensures[C12] (exists(p, q, 0 <= p && p < q && q < len(batch), batch[p] == batch[q])) ==> ghost("queued") == old(ghost("queued")) && !allOK
+// ... and so is a batch that mixes tables or contains a call that may not travel in a multi
+//@   ensures[C12] (exists(k, 0 <= k && k < len(batch) && (!canBatch(batch[k]) || !seqeq(batch[k].Table(), batch[0].Table())))) ==> ghost("queued") == old(ghost("queued")) && !allOK
+//@   loop "for i, rpc := range batch"#1 invariant[C12] (exists(k, 0 <= k && k < i && (!canBatch(batch[k]) || !seqeq(batch[k].Table(), table)))) ==> !allOK
 //@   loop "for i, rpc := range batch"#1 invariant len(res) == len(batch) && rpcToRes != nil && forall(k, 0 <= k && k < len(batch), batch[k] == old(batch[k]))
 //@   loop "for i, rpc := range batch"#1 invariant forall(k, 0 <= k && k < i, res[k].Error != nil)
 //@   loop "for i, rpc := range batch"#1 invariant ghost("queued") == old(ghost("queued")) && marksBelow()
@@ -402,7 +412,7 @@ package gohbase
 //@   requires reg != nil && rccNonNil(c.clients)
 //@   modifies X.unavail, X.token, X.regclient, D.map[hrpc.RegionClient]map[hrpc.RegionInfo]struct{}, C.map[hrpc.RegionClient]map[hrpc.RegionInfo]struct{}
 //@   panics never[C09]
-//@   ensures[C09] ghostat("unavail", reg) == 1
+//@   ensures[C09,C04] ghostat("unavail", reg) == 1
 //@   ensures[C09] forall(k, old(ghostat("unavail", k)) == 1 ==> ghostat("unavail", k) == 1)
 //@   ensures[C09] forall(k, ghostat("token", k) == old(ghostat("token", k)) || ghostat("token", k) == 0)
 //@   loop 1 invariant[C09] ghostat("unavail", reg) == 1 && forall(k, old(ghostat("unavail", k)) == 1 ==> ghostat("unavail", k) == 1)
@@ -441,6 +451,11 @@ package gohbase
 // every attempt but the first resolves the location again: a region that moved is not probed at its stale address for
 // ever (the safety part of "a request whose region moved eventually succeeds", C04)
 //@   loop 1 invariant[C04] backoff != 0 ==> addr == ""
+// a connection is taken down only when it has failed itself: after a probe, only on a connection-level error (a
+// retryable answer or "not serving" says nothing about the connection, which other regions share) (C20)
+//@   at call clientDown#1 assert[C20] typeis(err, "region.ServerError")
+// a stale region is re-resolved by its own table and start key (its stop key belongs to the next region)
+//@   at call lookupRegion#1 assert[C01] seqeq(arg1, fullyQualifiedTable(originalReg)) && sameslice(arg2, originalReg.StartKey())
 // every exit releases the waiters of the region it was started for, and of the replacement region once adopted - except
 // when the whole client has been closed (ghost closedexit)
 //@   at return 5 ghost closedexit == 1
@@ -506,6 +521,9 @@ package gohbase
 //@   ensures[C06] result != nil && r1 ==> r0 == result && len(result.Cell) == old(len(result.Cell)) + len(partial.Cell)
 //@   ensures[C06] result != nil && r1 ==> forall(k, 0 <= k && k < old(len(result.Cell)), result.Cell[k] == old(result.Cell[k])) && forall(k, 0 <= k && k < len(partial.Cell), result.Cell[old(len(result.Cell)) + k] == partial.Cell[k])
 //@   ensures[C06] result != nil && old(result.GetPartial()) && !r1 ==> r0 == result && !result.GetPartial() && sameslice(result.Cell, old(result.Cell))
+// whether a fragment continues the row being assembled depends on the row keys alone (the last fragment of a split row
+// comes flagged complete; it still belongs to the row)
+//@   ensures[C06] result != nil && old(result.GetPartial()) ==> r1 == old(len(partial.Cell) == 0 || len(result.Cell) == 0 || seqeq(result.Cell[0].Row, partial.Cell[0].Row))
 
 // ---- scanner termination (C14) ----
 // Ghost closereq = number of explicit close requests issued for region scanners (a `go s.SendRPC(closeRpc)` counts as
